@@ -30,7 +30,7 @@ claimed = {
  "C36": ("net/http handler programs (WriteHeader incl. 1xx and repeated calls, Header().Set/Add/Del, Write, Flush, sleeps) and requests with repeated headers and bodies; the reference response comes from a real net/http server run on an in-memory pipe, the simulated side runs NewFastHTTPHandler with handler goroutine, serve goroutine and stream writer interleaved by the scheduler; ConvertRequest compared with net/http parse of the same bytes", "6/C36"),
  "C22": ("(a) CompressHandler, CompressHandlerLevel and CompressHandlerBrotliLevel with in-range and out-of-range levels over buffered and streamed bodies around the 200-byte threshold, Accept-Encoding lists with q-values, wildcards and unknown codings, pre-set Content-Encoding; client decodes with the standard decoders; (b) 1 to 2048 x GOMAXPROCS + 60 simultaneous Append*/Write* calls per codec with the stackless worker tasks starved by the scheduler so the work queue saturates deterministically; every output must decode to its input", "6/C22"),
  "C07": ("server: bodies just below, at and above MaxRequestBodySize (1 B to 70 KB, 2 MiB in the thorough tier, default 4 MiB) fixed-length and chunked (tiny chunks, one chunk, mixed) with HeaderReceived overrides, heads around ReadBufferSize, compression bombs and many-part multipart bodies fed to the *WithLimit helpers; rejection status/close, handler never sees an oversize body, bytes taken from the simulated socket before rejection bounded by head + limit + buffers; client: MaxResponseBodySize against CL/chunked/close-delimited responses", "6/C07"),
- "C08": ("Request/Response.ReadLimitBody, RequestHeader/ResponseHeader.Read over a bufio.Reader of size 16-4096 on a faulty reader (1-byte to unlimited chunks, (0,nil) reads, EOF/unexpected EOF/timeout/custom error at any offset) fed with the C01 grammar, generated responses and 0-5 byte-level mutations, always followed by a sentinel; value parsers run on accepted requests and on raw bytes; no panic, read budget (termination), sentinel intact (no over-read) against the RFC 9112 reference", "6/C08"),
+ "C08": ("Request/Response.ReadLimitBody, RequestHeader/ResponseHeader.Read over a bufio.Reader of size 16-4096 on a faulty reader (1-byte to unlimited chunks, (0,nil) reads, EOF/unexpected EOF/timeout/custom error at any offset) fed with the C01 grammar, generated responses and 0-5 byte-level mutations, always followed by a sentinel, with positive body limits 1 B-16 MiB; Expect: 100-continue requests are completed with ContinueReadBody as the API documents; value parsers run on accepted requests and on raw bytes; no panic, read budget (termination), no byte consumed past the RFC 9112 reference end of the message and sentinel intact (no over-read)", "6/C08"),
  "C35": ("upload histories on sequentially used connections: 1-3 files of 0 B-100 KB (17 MiB in a thorough minority) and fields, StreamRequestBody and DisablePreParseMultipartForm on/off, fixed-length or chunked, handler parsing or ignoring the form, client aborts at 10/50/90 %, TimeoutError (excepted), keep-alive follow-ups; per-run private TMPDIR census at every later handler entry and after the server closed the connection; parsed form vs sent form; WriteMultipartForm round trip through mime/multipart", "6/C35"),
  "C37": ("the scenarios of C03 C04 C10 C11 C12 C13 C15 C16 C17 C18 C21 C22 C25 C38 C40 C41 re-run on the -race build of the harness: scheduler hand-offs, simulated network, pools and recorders are hidden from the detector (runtime.RaceDisable around them) while every real lock, atomic and channel operation of fasthttp still reaches it, so a report is a function of the tape and replays; only reports whose two racing accesses are both made by fasthttp or its dependencies count", "6/C37"),
  "C33": ("PipeConns stream equality and Close semantics, InmemoryListener Dial/Accept/Close pairing, under seeded interleavings of writers, readers, deadlines and closers at every channel/select/mutex operation", "6/C33"),
